@@ -1,4 +1,4 @@
-import PallasVerif.Proofs.SchemaHand
+import PallasVerif.Proofs.SchemaBlock
 import PallasVerif.Gen.SchemaEra
 /-!
 # C06 — Era ledger codecs are isomorphic on chain data and round-trip all values
@@ -18,9 +18,14 @@ schema; the side conditions are decided on the generated terms (`table_ok`, `env
 
 The other half of the property, *isomorphism on chain data*, rests on `KeepRaw`:
 `keepraw_reencodes` / `keepraw_iso_bytes` state that whatever a `KeepRaw<T>` decoder accepts is
-re-encoded byte for byte, for every `T`.  That the remaining glue of real blocks (outer array
-heads, the auxiliary-data map, the invalid-transaction list) is canonical is a fact about the
-chain, checked on every block of the corpus by the stream `chain` (not a theorem).
+re-encoded byte for byte, for every `T`; `C06_block_iso_partial` composes this over the shape of
+the Alonzo / Babbage / Conway blocks: a block whose glue between the raw-retaining parts is
+canonical (minimal heads, sorted minimal auxiliary-data keys, body / witness arrays definite or
+indefinite) and that the decoder accepts re-encodes to exactly the same item.  That the glue of
+the real chain is of this form is a fact about the chain, not a theorem: it is checked on every
+block of the corpus by the stream `chain` (pallas and the model both decode and re-encode).
+`vec_never_indefinite` is why the two block arrays cannot be plain `Vec`s (they were, see
+known_findings.d/C06.json).
 
 Full statement vs. what is proved: see `FullStatement` / `C06_roundtrip_partial` below.
 -/
@@ -160,6 +165,54 @@ theorem vec_keepraw_reencodes (env : Env) (fuel : Nat) (s : Schema) (xs : List I
   obtain ⟨l, e⟩ := key xs vs hvs'
   simp only [enc, encVec, l, hl, if_true, Option.map_eq_some_iff]
   exact ⟨xs, e, rfl⟩
+
+/-- a `Vec<T>` is always written with a definite head: an indefinite array accepted by its
+    decoder is never reproduced (the reason block bodies / witness sets need `MaybeIndefArray`) -/
+theorem vec_never_indefinite (env : Env) (fuel : Nat) (s : Schema) (v : Value) (it : Item)
+    (h : enc env (fuel + 1) (.vec s) v = some it) : ∃ xs, it = mkArray xs := by
+  simp only [enc, encVec] at h
+  cases v <;> simp at h
+  obtain ⟨_, xs, _, rfl⟩ := h
+  exact ⟨xs, rfl⟩
+
+/-- the generated block schemas have the shape `block_iso` is about -/
+theorem block_shapes :
+    alonzo_Block = blockSchema alonzo_Header alonzo_TransactionBody alonzo_WitnessSet alonzo_AuxiliaryData ∧
+    babbage_Block = blockSchema babbage_Header babbage_TransactionBody babbage_WitnessSet alonzo_AuxiliaryData ∧
+    conway_Block = blockSchema babbage_Header conway_TransactionBody conway_WitnessSet alonzo_AuxiliaryData :=
+  ⟨rfl, rfl, rfl⟩
+
+/-- **C06, chain half (model level).** For the three post-Byron block types as translated from the
+    source: a block item `[header, bodies, witness sets, {index => aux data}, ? [index]]` whose
+    glue is canonical and that the typed decoder accepts is re-encoded to the same item — for
+    arbitrary (also non-canonical) content of header, bodies, witness sets and auxiliary data.
+    Partial: canonicity of the glue is a hypothesis (true of every block of the corpus, stream
+    `chain`); Byron blocks are only covered by the correspondence. -/
+theorem C06_block_iso_partial (S : Schema) (hS : S ∈ [alonzo_Block, babbage_Block, conway_Block])
+    (n : Nat) (hdr bodies wits : Item) (bx wx : List Item)
+    (kas : List (Nat × Item)) (inv : Option (List Nat)) (v : Value)
+    (hb : ArrOf bodies bx) (hw : ArrOf wits wx)
+    (hk : ∀ p, p ∈ kas → p.1 < 2 ^ 32) (hs : strictSorted (kas.map (fun p => Value.nat p.1)) = true)
+    (hl : kas.length < 2 ^ 64)
+    (hi : ∀ idxs, inv = some idxs → (∀ i, i ∈ idxs → i < 2 ^ 32) ∧ idxs.length < 2 ^ 64)
+    (hd : dec env (n + 4) S
+      (mkArray ([hdr, bodies, wits, mkMapFlat (flattenPairs (auxPairs kas))] ++ invItems inv)) = some v) :
+    enc env (n + 4) S v
+      = some (mkArray ([hdr, bodies, wits, mkMapFlat (flattenPairs (auxPairs kas))] ++ invItems inv)) := by
+  obtain ⟨h1, h2, h3⟩ := block_shapes
+  simp only [List.mem_cons, List.mem_nil_iff, or_false] at hS
+  rcases hS with rfl | rfl | rfl
+  · rw [h1] at hd ⊢; exact block_iso env n _ _ _ _ hdr bodies wits bx wx kas inv v hb hw hk hs hl hi hd
+  · rw [h2] at hd ⊢; exact block_iso env n _ _ _ _ hdr bodies wits bx wx kas inv v hb hw hk hs hl hi hd
+  · rw [h3] at hd ⊢; exact block_iso env n _ _ _ _ hdr bodies wits bx wx kas inv v hb hw hk hs hl hi hd
+
+/-- the hypotheses are satisfiable: an empty Conway-shaped block with an indefinite body array
+    and one auxiliary-data entry passes through `blockSchema` of trivial parts -/
+example :
+    let S := blockSchema .any .any .any .any
+    let it := mkArray ([mkUInt 7, Item.seqIndef 4 [mkUInt 1], mkArray [], mkMapFlat (flattenPairs (auxPairs [(0, mkUInt 9)]))] ++ invItems (some [0]))
+    ((dec env 10 S it).bind (enc env 10 S)).map Item.encode = some it.encode := by
+  decide +kernel
 
 /-! ## non-vacuity: concrete layouts the generated schemas produce -/
 
